@@ -303,6 +303,41 @@ fn oracle_difficulty(text: &str, target: GameMode, dspec: &DiffSpec, ops: &[Op],
             call_after_end = true;
         }
     }
+    // finally one consuming call *by value* (an overridden Iterator::last / count is only reached this way:
+    // `by_ref()` goes through the provided methods of `&mut I`); which one follows from the history's length
+    let at = format!("terminal call by value (cursor {p}/{l})");
+    match ops.len() % 5 {
+        0 => {}
+        1 => cmp_opt(&format!("{at}: last()"), &g.last(), if p < l { s.last() } else { None })?,
+        2 => {
+            let got = g.count();
+            if got != l - p {
+                return Err(format!("{at}: count()={got}, model {}", l - p));
+            }
+        }
+        3 => {
+            let got = g.fuse().enumerate().count();
+            if got != l - p {
+                return Err(format!("{at}: fuse().enumerate().count()={got}, model {}", l - p));
+            }
+        }
+        _ => {
+            let got: Vec<_> = g.skip(1).collect();
+            cmp_seq(&format!("{at}: skip(1).collect()"), &got, s.get(p + 1..).unwrap_or(&[]))?;
+        }
+    }
+    info.comparisons += 1;
+    // the mode-specific calculator's own count() / last() by value, after k consumed values
+    {
+        let k = ops.len() % (l + 2);
+        let (count, last) = super::common::mode_gradual_terminal(&d, &map, target, k)?;
+        let rest = l.saturating_sub(k);
+        if count != rest {
+            return Err(format!("mode-specific calculator: count() after {k} values = {count}, model {rest}"));
+        }
+        cmp_opt(&format!("mode-specific calculator: last() after {k} values"), &last, if rest > 0 { s.last() } else { None })?;
+        info.comparisons += 2;
+    }
     info.nontrivial = nth_before_end && call_after_end;
     Ok(())
 }
@@ -391,7 +426,7 @@ pub fn property() -> Property {
         subchecks: vec![
             SubCheck {
                 name: "difficulty-iterator-model",
-                rule: "G-MAP (all modes + converts, <=30 objects, sizes 0-3 emphasised) x G-DIFF x op sequence (1-24 ops of next, nth(k) with k in {0..3, around the end, usize::MAX, 2^32+j, m*2^32+j, 2^16+j}, len, size_hint, by_ref().step_by/skip/take/zip/count/last/collect). Reference model: the sequence S a fresh twin yields with plain next() and a cursor; every observation (values same-value-equal on all fields, len/size_hint after every op, None forever after exhaustion) must match. Non-trivial: >=1 nth(k>=1) hitting inside the sequence and >=1 call after exhaustion.",
+                rule: "G-MAP (all modes + converts, <=30 objects, sizes 0-3 emphasised) x G-DIFF x op sequence (1-24 ops of next, nth(k) with k in {0..3, around the end, usize::MAX, 2^32+j, m*2^32+j, 2^16+j}, len, size_hint, by_ref().step_by/skip/take/zip/count/last/collect, and one final consuming call by value: last / count / fuse().enumerate().count / skip(1).collect). Reference model: the sequence S a fresh twin yields with plain next() and a cursor; every observation (values same-value-equal on all fields, len/size_hint after every op, None forever after exhaustion) must match. Non-trivial: >=1 nth(k>=1) hitting inside the sequence and >=1 call after exhaustion.",
                 quick: 60_000,
                 thorough: 200_000,
                 tape_len: 1300,
